@@ -156,3 +156,70 @@ pub fn oti_scheme_specific(oti: &oti::Oti) -> Option<(u8, u32, u32, u32)> {
         )),
     }
 }
+
+/// One `File` element of a parsed FDT instance, as the session-level receiver reads it
+#[derive(Debug, Clone)]
+pub struct FdtFileSummary {
+    /// the `TOI` attribute, verbatim
+    pub toi: String,
+    /// `Cache-Control`: 0 = absent, 1 = no-cache, 2 = max-stale, 3 = Expires (value in `cache_expires`)
+    pub cache_control: u8,
+    /// value of `Cache-Control/Expires` (NTP seconds)
+    pub cache_expires: u32,
+    /// `File::get_transfer_length()`
+    pub transfer_length: u64,
+    /// `FdtInstance::get_oti_for_file(file)` as (FEC encoding id, encoding symbol length, maximum source block length)
+    pub oti: Option<(u8, u16, u32)>,
+    /// the `Content-Encoding` attribute
+    pub content_encoding: Option<String>,
+    /// a `Content-MD5` attribute is present
+    pub has_md5: bool,
+}
+
+/// What `common::fdtinstance::FdtInstance::parse` made of an XML document
+#[derive(Debug, Clone)]
+pub struct FdtSummary {
+    /// the `Expires` attribute, verbatim
+    pub expires: String,
+    /// the `File` elements (`None` when the instance has no `File` child)
+    pub files: Option<Vec<FdtFileSummary>>,
+}
+
+/// `common::fdtinstance::FdtInstance::parse` followed by the accessors the receiver uses
+/// (`get_transfer_length`, `get_oti_for_file`); `None` when the parser rejects the document
+pub fn fdt_parse_summary(xml: &[u8]) -> Option<FdtSummary> {
+    use crate::common::fdtinstance::{CacheControlChoice, FdtInstance};
+    let inst = FdtInstance::parse(xml).ok()?;
+    let files = inst.file.as_ref().map(|files| {
+        files
+            .iter()
+            .map(|f| {
+                let (cache_control, cache_expires) = match f.cache_control.as_ref().map(|c| &c.value) {
+                    None => (0, 0),
+                    Some(CacheControlChoice::NoCache(_)) => (1, 0),
+                    Some(CacheControlChoice::MaxStale(_)) => (2, 0),
+                    Some(CacheControlChoice::Expires(t)) => (3, *t),
+                };
+                FdtFileSummary {
+                    toi: f.toi.clone(),
+                    cache_control,
+                    cache_expires,
+                    transfer_length: f.get_transfer_length(),
+                    oti: inst.get_oti_for_file(f).map(|o| {
+                        (
+                            o.fec_encoding_id as u8,
+                            o.encoding_symbol_length,
+                            o.maximum_source_block_length,
+                        )
+                    }),
+                    content_encoding: f.content_encoding.clone(),
+                    has_md5: f.content_md5.is_some(),
+                }
+            })
+            .collect()
+    });
+    Some(FdtSummary {
+        expires: inst.expires.clone(),
+        files,
+    })
+}
